@@ -3,7 +3,10 @@
 # The target is built against the ThreadSanitizer build of the library (variant='tsan').  ThreadSanitizer reports are
 # converted into ordinary property failures INSIDE the target (__tsan_on_report + the TSan debugging interface), so
 #   * the signature names the MatrixSSL functions of the racing accesses (tsan:data-race@fnA+fnB),
-#   * a known finding does not end the shard (halt_on_error=0, exitcode=0) and is counted like any other known finding,
+#   * a known finding does not end the shard (halt_on_error=0) and is counted like any other known finding; an unknown one ends
+#     the process at once (failing tape + "VF-FAIL sig=" line) before the race can corrupt memory,
+#   * exitcode=66 only shows when the runtime itself dies (deadly signal): a normal exit is finished by the target with the
+#     engine's own status, so known findings do not turn into "shard ended abnormally",
 #   * the runtime's own report text goes to a log file in the run directory (log_path) and a rendering with both
 #     stacks goes to stderr / the failure detail.
 TSAN = 'halt_on_error=0:exitcode=66:second_deadlock_stack=1:report_signal_unsafe=0:history_size=5:log_path=c20-tsan.log'
@@ -23,7 +26,8 @@ PROP = dict(
                'is runnable); the engine alarm (300 s per case) is a backstop whose expiry is reported as inconclusive, not as a violation. '
                'Trusted: the thread-safe ld --wrap shims in harness/c20_wraps.c (thread-local deterministic entropy, constant wall clock), the in-target endpoint '
                'driver (documented GetReadbuf/ReceivedData/ProcessedData/GetOutdata/SentData contract), and the sequential model: a cached session resumes iff its '
-               'entry is valid (closing a connection that ended in a fatal error invalidates it, a normal close re-validates it; left free under cache pressure), '
+               'entry is still valid (a connection whose server answered a corrupted record with a fatal alert removes its entry for good; left free when '
+               'enough registrations happened that LRU eviction was possible), '
                'a ticket/TLS 1.3 PSK resumes iff its ticket key has not been deleted, every handshake completes, delivered data equals sent data. '
                'Not covered: DTLS, client authentication, EC server identities, matrixSslClose/Open racing with sessions, more than 8 threads.',
     technique='concurrency testing: generated multi-threaded operation programs run under ThreadSanitizer with seeded schedule perturbation (ld --wrap of '
